@@ -310,14 +310,22 @@ Section Compose.
   Variable range_deps : bytes -> list bytes -> list bytes.
   Variable range_files : bytes -> list bytes -> list bytes.
   Variable owner : bytes -> bytes.
+  (* a path outside the bundle's local prefixes (hasAPrefix(filename, localPrefixes) false) is not looked up among the
+     loaded packages but handed to the dependency resolver (dependencies.go findFileByPath: built-in files and the files
+     of the dependency set, by path; its resultCache only memoises a function of the dependency set, and keeps the
+     SearchResult - hence its Linked cache - alive across calls) *)
+  Variable is_local : bytes -> bool.
+  Variable ext_file : bytes -> option D.
   Variable deps_of : D -> list bytes.
   Variable link1 : D -> list L -> L.
 
   Definition lookup_in (pc : list (bytes * @pkg D)) (path : bytes) : option D :=
-    match map_get (owner path) pc with
-    | Some p => map_get path (p_files p)
-    | None => None
-    end.
+    if is_local path then
+      match map_get (owner path) pc with
+      | Some p => map_get path (p_files p)
+      | None => None
+      end
+    else ext_file path.
 
   Definition compile_and_link (fuel lfuel : nat) (b : @bundle F) (pc : list (bytes * @pkg D)) (lc : list (bytes * L))
              (name : bytes) : option (list (bytes * @pkg D) * list (bytes * L) * list (bytes * L)) :=
